@@ -27,7 +27,7 @@ LogEq(o, x) == /\ o.r = x.r /\ o.pc = x.pc /\ o.ev = x.ev /\ ResEq(o, x)
 LogCtx(o, x) == o.cur = x.cur /\ o.secs = x.secs
 ObsQ(e) == [i \in 1..Len(e.q) |-> [t |-> e.q[i][1], r |-> e.q[i][2]]]
 L1OfSpec(s) == /\ StackRestoredAtRest(s) /\ StackRestoredNested(s) /\ NoRunningAtRest(s) /\ DoneRaisesStop(s)
-               /\ PausedRaises(s) /\ SelfOpsRefused(s) /\ NextReturnsYielded(s) /\ TransitionTable(s)
+               /\ PausedRaises(s) /\ SelfOpsRefused(s) /\ StopResetSucceed(s) /\ NextReturnsYielded(s) /\ TransitionTable(s)
                /\ WakeOnSignal(s) /\ AtMostOnceQueued(s) /\ QueueSorted(s)
 
 WhyLog(olog, xlog) ==
@@ -41,7 +41,8 @@ WhyLog(olog, xlog) ==
 Why(e, a) ==
     LET s == a.st
         pre == IF IsRoutineOp(e.op) THEN st.rs[e.t].state ELSE "" IN
-    IF e.cur # "main" THEN "StackRestored"
+    IF s.over THEN "skip:cleanup-depth"      \* self-restarting clean-up code deeper than the spec follows
+    ELSE IF e.cur # "main" THEN "StackRestored"
     ELSE IF e.msecs # s.secs["main"] THEN (IF e.op = "tick" THEN "TickTime" ELSE "StackRestoredTime")
     ELSE IF \E r \in DOMAIN s.rs : e.states[r] # s.rs[r].state THEN "TransitionTable"
     ELSE IF ~ResEq(e.res, a.res) THEN
